@@ -15,7 +15,7 @@ for d in $(cat /tmp/wt/cf_list.txt); do
   base=$(jq -r .base_commit $d/meta.json)
   rm -rf $wt; git -C /repo worktree prune
   git -C /repo worktree add --detach -q $wt HEAD
-  if ! git -C $wt apply --check $d/patch.diff 2>/dev/null; then
+  if ! git -C $wt apply --check $d/patch.diff 2>/dev/null || [ "$(jq -r '.confirm_at // ""' $d/meta.json)" = base ]; then
     git -C /repo worktree remove --force $wt; git -C /repo worktree add --detach -q $wt $base
   fi
   {
